@@ -100,6 +100,8 @@ TARGETS = [
     ('CoordinateShift_to_stim', 'qce_circuit.addon_stim.circuit_operations', 'CoordinateShiftOperation', 'to_stim_instruction'),
     # --- C16: acceptance of simultaneous gates
     ('Gen_get_mutually_allowed', 'qce_circuit.connectivity.mapping.gate_sequence_generator', 'GateSequenceGenerator', 'get_mutually_allowed'),
+    # --- C18: row order of the drawing
+    ('Draw_reorder_indices', 'qce_circuit.visualization.visualize_circuit.display_circuit', None, 'reorder_indices'),
     # --- C19: identifiers
     ('ChannelIdentifier_eq', 'qce_circuit.structure.intrf_circuit_operation', 'ChannelIdentifier', '__eq__'),
     ('EdgeIDObj_contains', 'qce_circuit.connectivity.intrf_channel_identifier', 'EdgeIDObj', 'contains'),
@@ -226,6 +228,10 @@ def expr(e: ast.AST) -> str:
                 and not e.generators[0].is_async:
             g = e.generators[0]
             return f'.comp ({expr(e.elt)}) {lstr(g.target.id)} ({expr(g.iter)})'
+        if len(e.generators) == 1 and isinstance(e.generators[0].target, ast.Name) and len(e.generators[0].ifs) == 1 \
+                and not e.generators[0].is_async:
+            g = e.generators[0]
+            return f'.compIf ({expr(e.elt)}) {lstr(g.target.id)} ({expr(g.iter)}) ({expr(g.ifs[0])})'
         return unsupported_e(e)
     if isinstance(e, ast.JoinedStr):
         return '.fstr'
